@@ -261,7 +261,6 @@ impl InnerFilter {
     }
 
     fn progress_filtertime(&mut self, time: Time, wander: f64, config: &KalmanConfiguration) {
-        debug_assert!(time >= self.filter_time);
         if time < self.filter_time {
             return;
         }
